@@ -477,6 +477,9 @@ pub fn pipe(sh: &Shared, e: &Sexp) -> Option<Ob> {
     ("contains", 2) => last()?.contains(parse_data(&a[0])?).map(V::boolean),
     ("default_if_empty", 2) => last()?.default_if_empty(parse_data(&a[0])?),
     ("ignore_elements", 1) => last()?.ignore_elements(),
+    // time stamps / durations are not modelled: the stamp is dropped, a duration becomes `()`
+    ("timestamp", 1) => last()?.timestamp().map(|(_, x)| x),
+    ("time_interval", 1) => last()?.time_interval().map(|_| V::new(K::U)),
     ("start_with", 2) => {
       let (h, vs) = a[0].call()?;
       if h != "l" {
@@ -539,6 +542,30 @@ pub fn pipe(sh: &Shared, e: &Sexp) -> Option<Ob> {
         })
         .collect::<Option<Vec<_>>>()?;
       threaded_source(sh, tag, script)
+    }
+    // a SYNCHRONOUS slow source: emits inside `subscribe`, on the subscribing thread, sleeping before each event
+    ("slow", _) => {
+      let tag = a[0].nat()?;
+      let script = a[1..]
+        .iter()
+        .map(|it| {
+          let l = it.list()?;
+          Some((l.first()?.nat()? as u64, parse_ev(l.get(1)?)?))
+        })
+        .collect::<Option<Vec<_>>>()?;
+      let sh2 = sh.clone();
+      Observable::create(move |s: Observer<'static, V>| {
+        sh2.rec(format!("x{}+", tag));
+        for (gap, ev) in script.iter() {
+          if *gap > 0 {
+            vthread::sleep(std::time::Duration::from_millis(*gap));
+          }
+          if !s.is_subscribed() {
+            break;
+          }
+          emit_ev(&s, ev);
+        }
+      })
     }
     ("observe_on", 1) => last()?.observe_on(schedulers::new_thread_scheduler()),
     ("subscribe_on", 1) => last()?.subscribe_on(schedulers::new_thread_scheduler()),
